@@ -232,8 +232,10 @@ GenSettle(cfg, obs) ==
 
 (* ==================================================================================== C12 Join *)
 FromInput(v, i) == v \div 100 = i
+\* (an input channel handed to Join twice - cfg.dup - is read by two forwarders: its elements still arrive once each, but the
+\*  statement's "original relative order" is about distinct inputs, so the order clause is not applied to such a channel)
 JoinPerInput(cfg, obs) ==
-  cfg.kind = "Join" => \A i \in 1..NIn(obs) : IsPrefix(SelectSeq(obs.got["out"], LAMBDA v : FromInput(v, i)), Offered(obs, i))
+  cfg.kind = "Join" => \A i \in 1..NIn(obs) : (i - 1) \in Range(cfg.dup) \/ IsPrefix(SelectSeq(obs.got["out"], LAMBDA v : FromInput(v, i)), Offered(obs, i))
 JoinNothingInvented(cfg, obs) ==
   cfg.kind = "Join" => \A j \in 1..Len(obs.got["out"]) : \E i \in 1..NIn(obs) : FromInput(obs.got["out"][j], i)
 JoinComplete(cfg, obs) ==
